@@ -9,7 +9,7 @@ import re
 
 import inline
 import seqmodel
-from core import AbsPaths, VALUE_EQ, INT_CMP, norm
+from core import AbsPaths, VALUE_EQ, INT_CMP, norm, http_version, version_name, VERSION_CMP
 from seqmodel import NONE, some, tup, _arg, _deref, _set_dest
 
 FN = "service::http::http2::check_http2_request"
@@ -72,12 +72,12 @@ def evaluate(facts, version, method, present, reqv="HTTP_11"):
             return False
         cur = st.get(PRESENT) or ("list", ())
         return _set_dest(st, t, ("const", "true" if name in [e[1] for e in cur[1]] else "false"))
-    raw = [(r"ExecuteRequest.*::connection$", const("CONN")), (r"Connection.*::version$", const("http::Version::" + version)),
+    raw = [(r"ExecuteRequest.*::connection$", const("CONN")), (r"Connection.*::version$", lambda ev, st, t, site: _set_dest(st, t, http_version(version))), VERSION_CMP,
            (r"ExecuteRequest.*::(request|request_mut)$", const("REQ")), (r"Request.*::method$", const("http::Method::" + method)),
            (r"Request.*::version_mut$", o_version_mut), (r"Request.*::version$", o_version_get),
            (r"Request.*::(headers|headers_mut)$", const("HEADERS")), (r"HeaderName::from_static$", o_from_static),
            (r"HeaderMap.*::remove$", o_remove), (r"HeaderMap.*::contains_key$", o_contains)] + seqmodel.RAW_ORACLES
-    st = {1: ("const", "EXECUTE_REQUEST"), CELL: ("const", "http::Version::" + reqv), PRESENT: ("list", tuple(("const", n) for n in present)), LOG: ("list", ())}
+    st = {1: ("const", "EXECUTE_REQUEST"), CELL: http_version(reqv), PRESENT: ("list", tuple(("const", n) for n in present)), LOG: ("list", ())}
     outs = AbsPaths(u, limit=20000, raw_oracles=raw, oracles=[VALUE_EQ, INT_CMP]).outcomes(state=st, extra_keys=(CELL, PRESENT, LOG))
     res = set()
     for (rv, _, (cell, left, log)) in outs:
@@ -85,7 +85,7 @@ def evaluate(facts, version, method, present, reqv="HTTP_11"):
         if kind == "Err":
             e = dict(rv[2]).get(0)
             kind = "Err(%s)" % (e[1] if e is not None and e[0] == "variant" else "?")
-        res.add((kind, cell[1] if cell is not None else "?", tuple(sorted(e[1] for e in left[1])) if left is not None else None))
+        res.add((kind, ("http::Version::" + version_name(cell)) if version_name(cell) else "?", tuple(sorted(e[1] for e in left[1])) if left is not None else None))
     return u, res
 
 
